@@ -8,7 +8,8 @@ pid = sys.argv[1]
 n = int(sys.argv[2]) if len(sys.argv) > 2 else 3
 p = [json.loads(l) for l in open('/verif/properties.jsonl') if json.loads(l)['id'] == pid][0]
 low = pid.lower()
-wt = f'/tmp/mut_{low}'
+pref = sys.argv[3] if len(sys.argv) > 3 else 'mut'
+wt = f'/tmp/{pref}_{low}'
 base = open('/verif/tools/baseline_failures.txt').read().strip()
 print(f"""You are helping test a verification effort for the Python library nibabel. You have a scratch git worktree of the library at {wt} (run code with `cd {wt} && PYTHONPATH={wt} /venv/bin/python ...`; check that `import nibabel; nibabel.__file__` points into {wt}). Work ONLY inside {wt} and {wt}_out (create it). Do not look at or touch /verif or /repo.
 
